@@ -514,6 +514,16 @@ func (x *c03) loopbackC19(runs int) {
 		if ok && e1 == nil {
 			msg = "flushed Send after Close returned nil"
 		}
+		// a buffered Send may still be accepted; once the flush delay has elapsed the next one must fail
+		var e3, e4 error
+		ok = ok && call(func() { e3 = a.Send(senderPacket(99, 1, 1), true) })
+		if ok && e3 == nil {
+			time.Sleep(12 * time.Millisecond)
+			ok = ok && call(func() { e4 = a.Send(senderPacket(99, 2, 1), true) })
+			if ok && e4 == nil {
+				msg = "buffered Send still accepted after the flush delay has elapsed on a closed connection"
+			}
+		}
 		var e2 error
 		ok = ok && call(func() { _, e2 = a.Receive() })
 		if ok && e2 == nil {
